@@ -12,6 +12,7 @@
 #include <cstdio>
 #include <cstdlib>
 #include <cassert>
+#include <unistd.h>
 #include <vector>
 #include <string>
 #include <unordered_map>
@@ -35,12 +36,12 @@ struct Node {
   bool taint;              // depends (syntactically) on an uninitialised-memory variable
   bool cleaf;              // decision diagram with constant leaves (CONST, atom, or ITE)
   bool cond;               // contains conditional structure (ITE / SEL / atoms) that simplifyUnder() may reduce
+  bool mark;               // garbage collection
   bool pure;               // cleaf and all atoms are free boolean input variables (satisfiable iff not the constant false)
   uint32_t level;          // atoms: order index; ITE: level of x; otherwise ~0u
   uint32_t id;
   uint64_t c;              // CONST: value; VAR: var index; EXTRACT: lo bit
   Node *x, *y, *z;
-  mutable uint32_t evTag; mutable uint64_t evVal;
 };
 
 struct VarInfo { std::string name; uint8_t w; bool uninit; Node* node; };
@@ -359,10 +360,12 @@ public:
     return intern(CONCAT, w, 0, hi, lo, nullptr);
   }
 
-  // ---- evaluation under a model (vector of var values; missing = 0)
+  // ---- evaluation under a model (vector of var values; missing = 0); memo table keyed by node id, valid for one tag
+  std::vector<std::pair<uint32_t, uint64_t>> evMemo;
   uint64_t eval(Node* n, const std::vector<uint64_t>& m, uint32_t tag) {
     if (n->op == CONST) return n->c;
-    if (n->evTag == tag) return n->evVal;
+    if (evMemo.size() < nodes.size()) evMemo.resize(nodes.size() + 1024, std::make_pair(0u, (uint64_t)0));
+    if (evMemo[n->id].first == tag) return evMemo[n->id].second;
     uint64_t r = 0; unsigned w = n->w; bool ok;
     switch (n->op) {
       case VAR: r = n->c < m.size() ? (m[n->c] & maskw(w)) : 0; break;
@@ -374,7 +377,7 @@ public:
       case ITE: case SEL: r = eval(n->x, m, tag) ? eval(n->y, m, tag) : eval(n->z, m, tag); break;
       default: { uint64_t a = eval(n->x, m, tag), b = eval(n->y, m, tag); r = fold2(n->op, n->x->w, a, b, ok); if (!ok) r = 0; }
     }
-    n->evTag = tag; n->evVal = r; return r;
+    evMemo[n->id] = std::make_pair(tag, r); return r;
   }
 
   std::string str(Node* n, int depth = 6) {
@@ -405,7 +408,32 @@ private:
   // unique table: open addressing over node pointers; nodes live in chunked arenas
   std::vector<Node*> tab; size_t tabCount = 0;
   std::vector<Node*> chunks; size_t chunkUsed = 0; static const size_t CHUNK = 1 << 16;
-  Node* alloc() { if (chunks.empty() || chunkUsed == CHUNK) { chunks.push_back(static_cast<Node*>(calloc(CHUNK, sizeof(Node)))); chunkUsed = 0; } return &chunks.back()[chunkUsed++]; }
+public:
+  std::vector<Node*> freeNodes; std::vector<uint32_t> freeIds; size_t liveNodes = 0;
+  Node* alloc() {
+    ++liveNodes;
+    if (!freeNodes.empty()) { Node* n = freeNodes.back(); freeNodes.pop_back(); return n; }
+    if (chunks.empty() || chunkUsed == CHUNK) { { void* mem = calloc(CHUNK, sizeof(Node)); if (!mem) { fprintf(stdout, "VSYMEX-INCONCLUSIVE out of memory (term arena)\n"); fflush(stdout); _exit(2); } chunks.push_back(static_cast<Node*>(mem)); } chunkUsed = 0; } return &chunks.back()[chunkUsed++]; }
+  // ---- garbage collection: the caller has set `mark` on every node reachable from its roots (markNode); everything
+  // else is released; `released(id)` lets the caller drop per-id side data (solver translations)
+  void markNode(Node* n) {
+    if (!n || n->mark) return;
+    std::vector<Node*> st; n->mark = true; st.push_back(n);
+    while (!st.empty()) { Node* x = st.back(); st.pop_back(); for (Node* c : {x->x, x->y, x->z}) if (c && !c->mark) { c->mark = true; st.push_back(c); } }
+  }
+  void clearMarks() { for (Node* n : nodes) if (n) n->mark = false; }
+  size_t sweep(const std::function<void(uint32_t)>& released) {
+    T->mark = F->mark = true; for (Node* a : atoms) markNode(a); for (auto& v : vars) markNode(v.node);
+    size_t freed = 0;
+    for (size_t i = 0; i < nodes.size(); ++i) { Node* n = nodes[i]; if (!n || n->mark) continue; released((uint32_t)i); if (i < evMemo.size()) evMemo[i].first = 0; nodes[i] = nullptr; freeIds.push_back((uint32_t)i); freeNodes.push_back(n); ++freed; --liveNodes; }
+    // rebuild the unique table from the survivors (constants and interned nodes only; VAR nodes are not interned)
+    size_t want = 1 << 16; while (want * 6 < liveNodes * 10 * 2) want <<= 1;
+    tab.assign(want, nullptr); tabCount = 0; size_t m = tab.size() - 1;
+    for (Node* n : nodes) if (n && n->op != VAR) { size_t i = hashKey(n->op, n->w, n->c, n->x, n->y, n->z) & m; while (tab[i]) i = (i + 1) & m; tab[i] = n; ++tabCount; }
+    for (auto& e : cache) { e.a = 0; e.r = nullptr; }
+    return freed;
+  }
+private:
   static uint64_t hashKey(Op op, unsigned w, uint64_t c, Node* x, Node* y, Node* z) {
     uint64_t h = op * 1000003ULL + w; h = h * 0x9E3779B97F4A7C15ULL + c; h = h * 0x9E3779B97F4A7C15ULL + (x ? x->id + 1 : 0);
     h = h * 0x9E3779B97F4A7C15ULL + (y ? y->id + 1 : 0); h = h * 0x9E3779B97F4A7C15ULL + (z ? z->id + 1 : 0); return h ^ (h >> 31); }
@@ -414,13 +442,14 @@ private:
     for (Node* n : old) if (n) { size_t i = hashKey(n->op, n->w, n->c, n->x, n->y, n->z) & m; while (tab[i]) i = (i + 1) & m; tab[i] = n; }
   }
   Node* raw(Op op, unsigned w, uint64_t c, Node* x, Node* y, Node* z) {
-    Node* n = alloc(); n->op = op; n->w = (uint8_t)w; n->c = c; n->x = x; n->y = y; n->z = z; n->id = nodes.size(); n->evTag = 0; n->evVal = 0;
+    Node* n = alloc(); n->op = op; n->w = (uint8_t)w; n->c = c; n->x = x; n->y = y; n->z = z; n->mark = false;
+    if (!freeIds.empty()) { n->id = freeIds.back(); freeIds.pop_back(); } else { n->id = nodes.size(); nodes.push_back(nullptr); }
     n->taint = (x && x->taint) || (y && y->taint) || (z && z->taint);
     n->cleaf = false; n->pure = false; n->level = NOLEVEL;
     n->cond = op == ITE || op == SEL || (w == 1 && op != CONST) || (x && x->cond) || (y && y->cond) || (z && z->cond);
     if (op == CONST) { n->cleaf = true; n->pure = true; }
     else if (op == ITE) { n->cleaf = true; n->level = x->level; n->pure = x->pure && y->pure && z->pure; }
-    nodes.push_back(n); return n;
+    nodes[n->id] = n; return n;
   }
   Node* intern(Op op, unsigned w, uint64_t c, Node* x, Node* y, Node* z) {
     assert(w >= 1 && w <= 64);
